@@ -171,6 +171,7 @@ func judge(r *core.Run, w *world, c Case) {
 	r.Eval(1)
 	if p != nil {
 		r.Count("panicked", 1)
+		r.Violation("panicked-instead-of-a-verdict", c.desc()+": the check panicked: "+p.Value, c)
 		return
 	}
 	if got == "" {
